@@ -38,6 +38,7 @@ func main() {
 		dump     = flag.String("dump", "", "debug: dump rendered SSA of the named function")
 		selftest = flag.String("selftest", "", "directory with the self-test catalogue (thorough tier runs it when set)")
 		list     = flag.Bool("list", false, "list properties and rules")
+		stOnly   = flag.Bool("selftest-only", false, "run only the self-test catalogue for the property (or all) and print the outcome")
 	)
 	flag.Parse()
 
@@ -97,6 +98,26 @@ func main() {
 		os.Exit(2)
 	}
 
+	if *stOnly {
+		bad := 0
+		for _, id := range ids {
+			st := runSelfTest(*repo, *selftest, id)
+			fmt.Printf("%s selftest: run=%v skipped=%v fired=%v silent=%v failures=%v\n", id, st.Summary["mutants_run"], st.Summary["skipped"], st.Summary["reported_as_expected"], st.Summary["silent_as_expected"], len(st.Failures))
+			if ds, ok := st.Summary["details"].([]map[string]any); ok {
+				for _, d := range ds {
+					if r := fmt.Sprint(d["result"]); strings.HasPrefix(r, "FAILED") || strings.HasPrefix(r, "selftest-skipped") {
+						fmt.Printf("   %v: %v\n", d["mutation"], r)
+					}
+				}
+			}
+			bad += len(st.Failures)
+		}
+		if bad > 0 {
+			os.Exit(1)
+		}
+		return
+	}
+
 	known, err := loadKnown(*knownP)
 	if err != nil {
 		fmt.Printf("cannot read known findings: %v\n", err)
@@ -118,7 +139,7 @@ func main() {
 		wg.Add(1)
 		go func(i int, c buildConfig) {
 			defer wg.Done()
-			progs[i], errs[i] = loadProgram(*repo, c.goos, c.goarch, *tier == "thorough")
+			progs[i], errs[i] = loadProgram(*repo, c.goos, c.goarch, true)
 		}(i, c)
 	}
 	wg.Wait()
